@@ -188,3 +188,9 @@ def no_reacquire(ctx):
     esc = [b.key for b in F.fns() if 'MutexGuard' in b.locals[0]['ty'] and b.kind != 'Closure']
     ctx.check(esc == ['api::Covercrypt::rng'], '-', 'guard-escape', 'functions returning a MutexGuard: %s (only Covercrypt::rng may)' % esc,
               'only Covercrypt::rng', '')
+
+
+@rule('C19', 'witness-send-sync', tier='thorough')
+def witness_send_sync(ctx):
+    from .. import witness
+    witness.check(ctx, ['InstanceIsSendSync', 'InstanceStateIsPrivate'])
